@@ -185,10 +185,20 @@ def _driver():
         rp = inspect.signature(ys.YowStack.__init__).parameters.get("reversed")
         out["rev_default"] = rp.default if (rp is not None and isinstance(rp.default, bool)) else None
 
+        def layerish(x):
+            if inspect.isclass(x):
+                return issubclass(x, YowLayer)
+            if isinstance(x, YowLayer):
+                return True
+            return type(x) in (tuple, list) and any(layerish(y) for y in x)
+
         def consts(mod):
+            # a capitalised module-level tuple / list is a layer constant when it is empty or mentions at least one
+            # layer (class, instance, nested group); tables of anything else (dispatch rules, names, numbers) have
+            # nothing to do with stack assembly and are not part of the model
             res = []
             for n, v in list(vars(mod).items()):
-                if n.isupper() and type(v) in (tuple, list):
+                if n.isupper() and type(v) in (tuple, list) and (len(v) == 0 or layerish(v)):
                     res.append([n, d_seq(v, want_tuple=False)])
             return res
         out["consts"] = {"yowstack": consts(ys), "init": consts(pkg)}
